@@ -203,6 +203,9 @@ class _Base(Part):
         c.criteria = case.get('criteria', 1)
         c.shrinkt = case.get('shrinkt', 1)
         rets = []
+        if case.get('preinit'):
+            c.tf = case['tf']
+            ss.TDS.init()
         for seg_tf in list(case.get('splits', [])) + [case['tf']]:
             if rets and seg_tf <= c.tf:
                 continue
@@ -332,7 +335,7 @@ class RealSteps(_Base):
     def describe(self, tier):
         return ('systems static3 (no differential state) and smib (GENCLS); all single events from the alphabet '
                 'x time lattice; all multisets of 2%s events from the pair alphabet (toggle x2, alter, 4 faults with shared start / clearing times); '
-                'a custom event (TDS.custom_event raised by a perturbation function) at / next to / away from scheduled events; tstep in {0.1, 1/30, 0.033}, fixt in {1,0}; resume splits at every lattice time and te+-eps'
+                'a custom event (TDS.custom_event raised by a perturbation function) at / next to / away from scheduled events; TDS.init() called explicitly before TDS.run(); tstep in {0.1, 1/30, 0.033}, fixt in {1,0}; resume splits at every lattice time and te+-eps'
                 % (' and 3' if tier == 'thorough' else ''))
 
     def cases(self, tier):
@@ -380,6 +383,12 @@ class RealSteps(_Base):
                 for cu in ([0.25], [0.25 + EPS], [0.3], [0.1, 0.25], [1.0]):
                     for (tstep, fixt) in ((0.1, 1), (1 / 30, 1)):
                         out.append(dict(sys=sysname, tf=1.0, tstep=tstep, fixt=fixt, events=ev, custom=cu, criteria=crit))
+            # TDS.init() called explicitly before TDS.run() (a zero-length first segment: users do it to inspect the initial
+            # values): the time grid and the dispatch must be those of a plain run
+            for ev in ([], [ev_toggle('L3', 0.0)], [ev_toggle('L3', 0.25)], [ev_alter('P1', '+', 0.1, 0.0)], [ev_fault(0.0, 0.1)],
+                       [ev_toggle('L3', 0.0), ev_toggle('L2', 0.1)], [ev_toggle('L3', 1.0)]):
+                for (tstep, fixt) in ((0.1, 1), (1 / 30, 1), (0.1, 0)):
+                    out.append(dict(sys=sysname, tf=1.0, tstep=tstep, fixt=fixt, events=ev, preinit=1, criteria=crit))
             # long horizon (> 10 s): one system, coarse step
             if sysname == 'static3':
                 tf = 13.0
